@@ -123,11 +123,15 @@ func (p *parsing) parseSwitch(tok token, end tokenTyp) ast.Node {
 				// before and after the semicolon token:
 				//     switch x := 2; x = y.(type) {
 				assignment, tok = p.parseAssignment(expressions, tok, false, true, true)
-				ta, ok := assignment.Rhs[0].(*ast.TypeAssertion)
+				// An increment or decrement has no right-hand side.
+				var ta *ast.TypeAssertion
+				if len(assignment.Rhs) > 0 {
+					ta, _ = assignment.Rhs[0].(*ast.TypeAssertion)
+				}
 				// TODO (Gianluca): should error contain the position of the
 				// expression which caused the error instead of the token (as Go
 				// does)?
-				if !ok || ta.Type != nil || len(assignment.Lhs) != 1 {
+				if ta == nil || ta.Type != nil || len(assignment.Lhs) != 1 {
 					panic(cannotUseAsValueError(tok.pos, assignment))
 				}
 				afterSemicolon = assignment
